@@ -109,7 +109,7 @@ class CallQueueModel(Model):
 class ProcessTable(Model):
     """Worker processes as the parent sees them (slots 0..n-1; pid == slot)."""
     METHODS = {"new_exit_lock": [], "exit_lock_acquire": [], "new_process": [], "start": [], "join": [], "is_alive": [],
-               "exit_release": ["ValueError"], "exit_acquire": [], "die": [], "set_exit_lock": [], "kill": []}
+               "exit_release": ["ValueError"], "exit_acquire": [], "die": [], "set_exit_lock": [], "kill": [], "crash": []}
 
     def __init__(self, name, S, n, alive=0, started=0, exitlock=0):
         self.name, self.n = name, n
@@ -159,6 +159,9 @@ class ProcessTable(Model):
                     Outcome(z3.Not(bit(xl, i, n)), {}, False, None, "timeout")]
         if method == "die":
             return [Outcome(T, {f"{nm}.alive": alive & ~onehot(i, n)}, None, None, "ok")]
+        if method == "crash":
+            # environment: a running worker is killed from outside (enabled once it has been started)
+            return [Outcome(bit(alive, i, n), {f"{nm}.alive": alive & ~onehot(i, n)}, None, None, "ok")]
         if method == "kill":
             # kill_process_tree(p): SIGKILL to the tree, then p.join() (the tree walk itself is C06)
             return [Outcome(T, {f"{nm}.alive": alive & ~onehot(i, n), f"{nm}.joined": joined | onehot(i, n)}, None, None, "ok")]
@@ -219,6 +222,26 @@ class NoopModel(Model):
 
     def outcomes(self, method, args, kwargs, t, S):
         return [Outcome(T, {}, None, None, "ok")]
+
+
+def _const_idx(x):
+    if isinstance(x, tuple) and x[0] == "c":
+        x = x[1]
+    if not isinstance(x, int):
+        raise Unsupported(f"sentinel membership with a non-constant index {x!r}")
+    return x
+
+
+class ClosableModel(Model):
+    """One end of a pipe of which only the closing matters (ghost flag <name>.closed)."""
+    METHODS = {"close": []}
+
+    def __init__(self, name, S):
+        self.name = name
+        S.declare(f"{name}.closed", "bool", False)
+
+    def outcomes(self, method, args, kwargs, t, S):
+        return [Outcome(T, {f"{self.name}.closed": z3.BoolVal(True)}, None, None, "ok")]
 
 
 class ExecSlice:
@@ -286,8 +309,9 @@ class ExecSlice:
                              "_executor_manager_thread_wakeup": ("field",), "_call_queue": ("field",),
                              "_result_queue": ("field",), "_initializer": "<init>", "_initargs": "<initargs>",
                              "_timeout": "<timeout>", "_env": "<env>"}}
+        O["callq.r"] = {"model": ClosableModel("callq.r", S)}
         O["callq"] = {"cls": "_SafeQueue", "model": O["callq.m"]["model"],
-                      "attrs": {"thread_wakeup": ObjRef("wakeup"), "shutdown_lock": ObjRef("shutdown_lock"),
+                      "attrs": {"_reader": ObjRef("callq.r"), "thread_wakeup": ObjRef("wakeup"), "shutdown_lock": ObjRef("shutdown_lock"),
                                 "pending_work_items": ObjRef("pending"), "running_work_items": ObjRef("running"),
                                 "_maxsize": callq_cap}}
         S.declare("weakref.dead", "bool", None)
@@ -348,7 +372,9 @@ class ExecSlice:
         c.rec_attrs[("CallItem", "__isinstance__")] = lambda f, ty: ("c", ty == ("c", ("type", "_CallItem")))
         c.rec_attrs[("Err", "__isinstance__")] = lambda f, ty: f["big"] if ty == ("c", ("type", "struct.error")) else _unsup(f"isinstance(err, {ty})")
         c.rec_attrs[("Ready", "__contains__")] = lambda f, a: (
-            f["res"] if a == ("o", "resq.r") else f["wake"] if a == ("o", "wakeup.r") else _unsup(f"{a} in ready"))
+            f["res"] if a == ("o", "resq.r") else f["wake"] if a == ("o", "wakeup.r") else
+            ("bit", f["sent"], _const_idx(a[2]["i"])) if isinstance(a, tuple) and a[:2] == ("rec", "Sentinel") else
+            _unsup(f"{a} in ready"))
         # processes
         c.rec_attrs[("Process", "pid")] = lambda f: f["i"]
         c.rec_attrs[("Process", "sentinel")] = lambda f: ("rec", "Sentinel", {"i": f["i"]})
